@@ -80,6 +80,22 @@ static bool overfill_lbuf(const Schema& s, Value& v, Tape& tp, std::string& what
     default: return false;
   }
 }
+// A bounded logical buffer whose size member is outside [0, capacity] (reported by Meta through the raw-size hook).
+static std::string bad_size_member(const Schema& s, const Value& v) {
+  switch (s.k) {
+    case K::Bin: case K::Seq:
+      if (s.maxc >= 0 && !s.unbounded && v.tag != 0) return "a logical buffer of capacity " + std::to_string(s.maxc) + " whose size member is " + (v.tag < 0 ? std::string("negative") : v.tag == 0x7fffffff ? std::string(">= 2^31-1") : std::to_string(v.tag));
+      if (s.k == K::Seq) for (auto& e : v.kids) { std::string r = bad_size_member(*s.kids[0], e); if (!r.empty()) return r; }
+      return "";
+    case K::Tup: case K::Stu: for (size_t i = 0; i < s.kids.size() && i < v.kids.size(); i++) { std::string r = bad_size_member(*s.kids[i], v.kids[i]); if (!r.empty()) return r; } return "";
+    case K::Opt: return v.tag && !v.kids.empty() ? bad_size_member(*s.kids[0], v.kids[0]) : "";
+    case K::Res: return v.tag == 2 && !v.kids.empty() ? bad_size_member(*s.kids[0], v.kids[0]) : "";
+    case K::Var: return v.tag >= 0 && !v.kids.empty() ? bad_size_member(*s.kids[v.tag], v.kids[0]) : "";
+    case K::Map: for (size_t i = 1; i < v.kids.size(); i += 2) { std::string r = bad_size_member(*s.kids[1], v.kids[i]); if (!r.empty()) return r; } return "";
+    case K::Tab: for (size_t i = 0; i < s.entries.size() && i < v.kids.size(); i++) if (s.entries[i].active && v.kids[i].tag && !v.kids[i].kids.empty()) { std::string r = bad_size_member(*s.entries[i].type, v.kids[i].kids[0]); if (!r.empty()) return r; } return "";
+    default: return "";
+  }
+}
 static bool has_lbuf(const Schema& s) {
   if ((s.k == K::Bin || s.k == K::Seq) && s.maxc >= 0 && !s.unbounded) return true;
   for (auto& k : s.kids) if (has_lbuf(*k)) return true;
@@ -367,8 +383,10 @@ std::string body_C02(Ctx& c, CaseIn& in) {
       if (s == kNonTermination) return fmt("non-termination: Read via %s issued more than %llu reader calls for a %zu-byte input [%s] input %s", rk_name(rk), (unsigned long long)(64 * ((uint64_t)mu.bytes.size() + 64)), mu.bytes.size(), how.c_str(), hex(mu.bytes).substr(0, 160).c_str());
       if (used > budget) return fmt("over-allocation: Read via %s allocated %llu bytes for a %zu-byte input (budget %llu, largest single request %llu) [%s] input %s", rk_name(rk), (unsigned long long)used, mu.bytes.size(), (unsigned long long)budget, (unsigned long long)AllocMeter::peak_single, how.c_str(), hex(mu.bytes).substr(0, 160).c_str());
       if (r.position() != SIZE_MAX && r.position() > mu.bytes.size() && (rk == R_Ped || rk == R_BPed || rk == R_Log || rk == R_BLog)) return fmt("position-past-end: %s at %zu of %zu", rk_name(rk), r.position(), mu.bytes.size());
+      if (rk_bounded(rk) && r.position() != SIZE_MAX && r.position() > lim) return fmt("bound-exceeded: %s with limit %zu consumed %zu bytes of the wrapped reader [%s] input %s", rk_name(rk), lim, r.position(), how.c_str(), hex(mu.bytes).substr(0, 160).c_str());
       // inspect, then reuse for a valid read, then destroy
-      Value seen = obj->get(); (void)seen;
+      Value seen = obj->get();
+      if (s != 0) { std::string bad = bad_size_member(*t.schema, seen); if (!bad.empty()) return fmt("invalid-after-failure: after a failed read (%s) via %s [%s] the destination holds %s", err_name(s), rk_name(rk), how.c_str(), bad.c_str()); }
       ReaderBox r2; r2.open(t.has_handle ? R_Log : R_Ped, good.bytes); r2.log.handles = good_handles;
       int s2 = obj->read(r2);
       if (s2 != 0) return fmt("reuse-failed: after a %s read via %s [%s], reading a valid encoding into the same object returned %s", s == 0 ? "successful" : "failed", rk_name(rk), how.c_str(), err_name(s2));
@@ -502,7 +520,11 @@ std::string body_C15(Ctx& c, CaseIn& in) {
     {
       std::vector<size_t> tf; for (size_t i = 0; i < ref.fields.size(); i++) if (ref.fields[i].kind == F::HType) tf.push_back(i);
       size_t fi = tf[tp.below(tf.size())];
-      EncodeOpts e2 = eo; Override ov; ov.what = Override::SetValue; ov.value = ref.fields[fi].value + 1 + tp.below(3); e2.overrides[fi] = ov;
+      const uint64_t tag = ref.fields[fi].value;
+      std::vector<uint64_t> wrong;
+      for (uint64_t cand : std::initializer_list<uint64_t>{0, 1, tag + 1, tag - 1, tag + 2, tag + 256, tag + ((uint64_t)1 << 32), tag ^ ((uint64_t)1 << 63), ~(uint64_t)0}) if (cand != tag) wrong.push_back(cand);
+      EncodeOpts e2 = eo; Override ov; ov.what = Override::SetValue; ov.value = wrong[tp.below(wrong.size())]; e2.overrides[fi] = ov;
+      if (ov.value == 0) c.rep.label("wrong-type-tag:zero");
       Encoded bad = ref_encode(*t.schema, actual, e2);
       ReaderBox r; r.open(R_Log, bad.bytes); load_handles(r.log, w.log.pushed);
       auto o2 = t.make(); int rs = o2->read(r);
@@ -606,7 +628,9 @@ std::string fuzz_one(Ctx& c, const TypeOps& t, bool is02, const uint8_t* data, s
   if (s == kNonTermination) return fmt("non-termination: Read via %s exceeded the reader call budget for a %zu-byte input", rk_name(rk), n);
   if (used > budget) return fmt("over-allocation: Read via %s allocated %llu bytes for %zu input bytes (budget %llu)", rk_name(rk), (unsigned long long)used, n, (unsigned long long)budget);
   *accepted = s == 0;
-  Value seen = obj->get(); (void)seen;
+  if (rk_bounded(rk) && r.position() != SIZE_MAX && r.position() > lim) return fmt("bound-exceeded: %s with limit %zu consumed %zu bytes of the wrapped reader", rk_name(rk), lim, r.position());
+  Value seen = obj->get();
+  if (s != 0) { std::string bad = bad_size_member(*t.schema, seen); if (!bad.empty()) return fmt("invalid-after-failure: after a failed read (%s) via %s the destination holds %s", err_name(s), rk_name(rk), bad.c_str()); }
   ReaderBox r2; r2.open(t.has_handle ? R_Log : R_Ped, good_bytes); r2.log.handles = handles;
   int s2 = obj->read(r2);
   if (s2 != 0) return fmt("reuse-failed: a valid read after the hostile read returned %s", err_name(s2));
